@@ -26,7 +26,9 @@ RULE = ("file sizes 0..300 (quick: a seeded sample that always contains 0,1,2,3,
         "lenient / garbage around 0, size-1, size, size+1, size 0) is sent as GET and HEAD through the real Site/Root/FileNodeHandler "
         "for literal, CHK, SDMF and MDMF files (mutable: as created, overwritten shorter, longer, emptied), HEAD compared with GET "
         "(status, Content-Range, Content-Length, Accept-Ranges, Content-Type, ETag, empty body) and with the model; conditional GET/HEAD "
-        "(If-None-Match with the file's ETag / * / a foreign tag, with and without Range) must both answer 304 resp. as without it")
+        "(If-None-Match with the file's ETag / * / a foreign tag, with and without Range) must both answer 304 resp. as without it; "
+        "multi-segment files (CHK with 64-byte segments, one production-size 3-segment MDMF file of 2*128KiB+4321 bytes in the fixed "
+        "corpus) get Range headers around every segment boundary, body == file slice and len(body) == Content-Length")
 TRUSTED = ["lean/Tahoe/Web/Range.lean is a hand transcription of parse_range_header/render (str.split, str.strip and int() modelled for ASCII)",
            "twisted.web.test.requesthelper.DummyRequest stands for the HTTP request (headers in, status/headers/body out)",
            "harness/grid.py (in-process grid, virtual clock) and the raw HTTP/1.0 feeding shim RoutedWeb in harness/props/c40.py"]
@@ -364,6 +366,16 @@ def canon_h(status, rh, body):
     return "%d|%s|%s|%s|%s" % (status, et, c, rh.get("content-length") or "-", hx(body))
 
 
+def body_signature(resp, h, n, kind, seg):
+    """a 206 whose headers are right but whose body runs past the announced range"""
+    status, cr, cl, body = resp
+    m = re.fullmatch(r"bytes ([0-9]+)-([0-9]+)/([0-9]+)", cr or "")
+    if status == 206 and m and cl is not None and cl.isdigit() and len(body) > int(cl):
+        last = int(m.group(2))
+        return "body-longer-than-range:%s%s" % (kind, "-segment-boundary" if seg and (last + 1) % seg == 0 else "")
+    return None
+
+
 def quiet_twisted_log():
     """errors rendered into HTTP responses (416) are also logged by Twisted; keep them off stderr"""
     from twisted.logger import globalLogBeginner
@@ -434,8 +446,41 @@ class RoutedWeb:
 
 # Fixed routed corpus (independent of VERIF_SEED): one file state per kind, every boundary family once; these are the cases
 # that catch seeded C40-b (render_HEAD drops the Range header) and a revert of aa58e25 (HEAD omits the ETag of a CHK file).
-ROUTED_CORPUS_PLANS = [{"kind": "lit", "chain": [0]}, {"kind": "lit", "chain": [30]}, {"kind": "chk", "chain": [203]},
-                       {"kind": "sdmf", "chain": [120, 41, 260]}, {"kind": "mdmf", "chain": [120, 0]}]
+# Multi-segment files: CHK with the grid client's max_segment_size = 64 (203 bytes = 4 segments), and one production-size
+# MDMF file (mutable/publish.py has no knob: DEFAULT_MUTABLE_MAX_SEGMENT_SIZE = 128 KiB, rounded up to a multiple of k;
+# 2 segments + 4321 bytes = 3 segments).  `seg` adds Range headers around every segment boundary (seeded C40-d: the mutable
+# retriever fetched one segment too many when the span ends exactly on an interior boundary).
+ROUTED_K = 2
+MDMF_SEG = ((128 * 1024 + ROUTED_K - 1) // ROUTED_K) * ROUTED_K
+CHK_SEG = 64
+ROUTED_CORPUS_PLANS = [{"kind": "lit", "chain": [0]}, {"kind": "lit", "chain": [30]},
+                       {"kind": "chk", "chain": [203], "seg": CHK_SEG},
+                       {"kind": "sdmf", "chain": [120, 41, 260]}, {"kind": "mdmf", "chain": [120, 0]},
+                       {"kind": "mdmf", "chain": [2 * MDMF_SEG + 4321], "seg": MDMF_SEG, "only_seg": True}]
+
+
+def seg_headers(n, seg):
+    """Range headers around every interior segment boundary B (= first byte of a later segment): spans ending exactly on a
+    boundary (last = B-1), just before/after it, single bytes at B-1/B/B+1, spans starting on B, crossing one and two
+    boundaries, exactly one whole segment, suffix ranges whose first byte lands on B-1/B/B+1."""
+    hs = []
+    bs = list(range(seg, n, seg))
+    for B in bs:
+        lo = max(B - 7, 0)
+        hs += ["bytes=%d-%d" % (lo, e) for e in (B - 2, B - 1, B, B + 1)]
+        hs += ["bytes=%d-%d" % (p, p) for p in (B - 1, B, B + 1) if p < n]
+        hs += ["bytes=%d-%d" % (a, B + 5) for a in (B - 1, B, B + 1)]
+        hs += ["bytes=%d-" % a for a in (B - 1, B)]
+        hs += ["bytes=0-%d" % (B - 1), "bytes=0-%d" % B]
+        hs += ["bytes=-%d" % k for k in (n - B - 1, n - B, n - B + 1) if k > 0]
+    for B0, B1 in zip(bs, bs[1:]):
+        hs += ["bytes=%d-%d" % (B0, B1 - 1), "bytes=%d-%d" % (B0 - 3, B1 + 3), "bytes=%d-%d" % (B0 - 3, B1 - 1),
+               "bytes=%d-%d" % (B0, B1)]
+    out = []
+    for h in hs:
+        if h not in out:
+            out.append(h)
+    return out
 
 
 def routed_corpus_headers(n):
@@ -451,17 +496,20 @@ def make_plans(ctx, rng):
         for n in sorted({0, 1, 2, LIT_MAX - 1, LIT_MAX} | {rng.randrange(0, LIT_MAX + 1) for _ in range(6)}):
             plans.append({"kind": "lit", "chain": [n]})
         for n in sorted({LIT_MAX + 1, 63, 64, 65, 128, 129, 300} | {rng.randrange(LIT_MAX + 1, 700) for _ in range(6)}):
-            plans.append({"kind": "chk", "chain": [n]})
+            plans.append({"kind": "chk", "chain": [n], "seg": CHK_SEG})
         for kind in ("sdmf", "mdmf"):
             for _ in range(4):
                 a = rng.randrange(1, 300)
                 plans.append({"kind": kind, "chain": [a, rng.randrange(0, a), rng.randrange(a + 1, 700), rng.choice([0, 1, 64, 65])]})
             plans.append({"kind": kind, "chain": [0, 70, 3]})
+        plans.append({"kind": "mdmf", "chain": [rng.choice([1, 2, 3]) * MDMF_SEG + rng.randrange(1, MDMF_SEG)], "seg": MDMF_SEG,
+                      "only_seg": True})
+        plans.append({"kind": "mdmf", "chain": [2 * MDMF_SEG], "seg": MDMF_SEG, "only_seg": True})      # a multiple of the segment size
     else:
         plans.append({"kind": "lit", "chain": [0]})
         plans.append({"kind": "lit", "chain": [rng.randrange(1, LIT_MAX + 1)]})
-        plans.append({"kind": "chk", "chain": [rng.choice([LIT_MAX + 1, 64, 65, 129])]})
-        plans.append({"kind": "chk", "chain": [rng.randrange(130, 400)]})
+        plans.append({"kind": "chk", "chain": [rng.choice([LIT_MAX + 1, 64, 65, 129])], "seg": CHK_SEG})
+        plans.append({"kind": "chk", "chain": [rng.randrange(130, 400)], "seg": CHK_SEG})
         for kind in ("sdmf", "mdmf"):
             a = rng.randrange(60, 200)
             plans.append({"kind": kind, "chain": [a, rng.randrange(1, a), rng.randrange(a + 1, 400), 0]})
@@ -485,7 +533,7 @@ def run_routed(ctx, plans, cases, impl, lines, hand, only=None, corpus=False):
     base = grid.fresh_dir("c40")
     try:
         with grid.Runtime(seed=0 if corpus else ctx.seed, policy="fifo") as rt:
-            g = grid.Grid(base, rt, num_servers=4, num_clients=1, k=2, happy=1, n=3, max_segment_size=64)
+            g = grid.Grid(base, rt, num_servers=4, num_clients=1, k=ROUTED_K, happy=1, n=3, max_segment_size=CHK_SEG)
             c = g.clients[0]
             web = RoutedWeb(rt, c)
             for plan in plans:
@@ -518,10 +566,16 @@ def run_routed(ctx, plans, cases, impl, lines, hand, only=None, corpus=False):
                     if only is not None:
                         pairs = [(only[1], only[2])]
                     else:
-                        pairs = [(h, None) for h in (routed_corpus_headers(n) if corpus else
-                                                     routed_headers(n, rng, ctx.tier == "thorough" and depth == 0))]
+                        base = [] if plan.get("only_seg") else (routed_corpus_headers(n) if corpus else
+                                                                routed_headers(n, rng, ctx.tier == "thorough" and depth == 0))
+                        if plan.get("seg"):
+                            base = base + [None, "bytes=%d-" % (n - 1), "bytes=%d-%d" % (n - 3, n + 9)] + seg_headers(n, plan["seg"])
+                            ctx.count("routed-segment-boundary-headers:%s" % kind, len(seg_headers(n, plan["seg"])))
+                        pairs = [(h, None) for h in base]
+                        if plan.get("only_seg"):
+                            pairs.append((None, "nonmatch"))
                         # conditional requests: If-None-Match with the file's own ETag, "*", a foreign tag, the tag in quotes
-                        for h in (None, "bytes=1-3", "bytes=%d-" % n):
+                        for h in (() if plan.get("only_seg") else (None, "bytes=1-3", "bytes=%d-" % n)):
                             for inm in (("match", "star", "nonmatch", "quoted", "multi", "near") if kind in ("lit", "chk") else ("nonmatch", "star")):
                                 pairs.append((h, inm))
                     state = "created" if depth == 0 else ("shorter" if n < chain[depth - 1] else "longer")
@@ -546,7 +600,8 @@ def run_routed(ctx, plans, cases, impl, lines, hand, only=None, corpus=False):
                             status, rh, body = web.request(meth, path, h, extra=extra)
                             resp = (status, rh.get("content-range"), rh.get("content-length"), body)
                             got[m] = (resp, rh)
-                            case = {"route": "site", "kind": kind, "chain": chain[:depth + 1], "size": n, "method": m, "hdr": h, "inm": inm}
+                            case = {"route": "site", "kind": kind, "chain": chain[:depth + 1], "size": n, "method": m, "hdr": h, "inm": inm,
+                                    "seg": plan.get("seg")}
                             ctx.case(("site", kind, n, m, h, inm) if (h or inm) else None)
                             ctx.count("routed:%s:%s" % (kind, meth))
                             # handler-level correspondence (render_GET / render_HEAD model incl. ETag and If-None-Match)
@@ -561,7 +616,8 @@ def run_routed(ctx, plans, cases, impl, lines, hand, only=None, corpus=False):
                             impl.append(canon(resp))
                             lines.append("c40 %d %s %s" % (n, m, "none" if h is None else hx(h.encode("ascii"))))
                         (gresp, gh), (hresp, hh) = got["G"], got["H"]
-                        hcase = {"route": "site", "kind": kind, "chain": chain[:depth + 1], "size": n, "method": "H", "hdr": h, "inm": inm}
+                        hcase = {"route": "site", "kind": kind, "chain": chain[:depth + 1], "size": n, "method": "H", "hdr": h, "inm": inm,
+                                 "seg": plan.get("seg")}
                         what = "Range %r%s on a %d-byte %s file (%s)" % (h, "" if inm is None else " + If-None-Match (%s)" % inm, n, kind, state)
                         # --- HEAD: the same status and headers as GET, no body
                         for name, key in HEAD_FIELDS:
@@ -600,7 +656,8 @@ def run_routed(ctx, plans, cases, impl, lines, hand, only=None, corpus=False):
                             if ab not in acc:
                                 ctx.violation("%s through the web tree answers %r (%s) to %s; acceptable: %s" % (
                                     "GET" if m == "G" else "HEAD", canon(resp)[:80], "/".join(str(x) for x in ab), what,
-                                    sorted(acc)), dict(hcase, method=m), signature(h, n, cls, ab))
+                                    sorted(acc)), dict(hcase, method=m), body_signature(resp, h, n, kind, plan.get("seg")) or
+                                    signature(h, n, cls, ab))
             g.close()
     finally:
         import shutil
@@ -617,7 +674,7 @@ def run(ctx):
         c = ctx.replay["case"]
         if c.get("route") == "site":
             routed_only = (c["chain"], c["hdr"], c.get("inm"))
-            plans = [{"kind": c["kind"], "chain": c["chain"]}]
+            plans = [{"kind": c["kind"], "chain": c["chain"], "seg": c.get("seg")}]
         else:
             for m in "GH":
                 reqs.append((c.get("node", "lit"), c["size"], m, c["hdr"]))
